@@ -774,8 +774,8 @@ CF_TOL = {
     "Gaussian": (1e-12, 0.0), "Exponential": (1e-13, 0.0), "Stable": (1e-12, 0.0), "Rational": (1e-12, 0.0),
     "Cubic": (1e-12, 64 * EPS), "Linear": (1e-13, 4 * EPS), "Circular": (1e-12, 16 * EPS), "Spherical": (1e-12, 16 * EPS),
     "TPLSimple": (1e-12, 64 * EPS),
-    # scipy kv / expn / gammaincc / hyp2f1 / jv; Integral: first-order asymptotic branch of exp_int for x > 30 (|err| < e^-30)
-    "Matern": (1e-12, 1e-300), "Integral": (1e-9, 1e-13), "HyperSpherical": (1e-11, 256 * EPS), "SuperSpherical": (1e-10, 256 * EPS),
+    # scipy kv / expn / gammaincc / hyp2f1 (loses ~3 digits as z -> 1: 1 - h F/F(1) cancels at the support edge) / jv; Integral: first-order asymptotic branch of exp_int for x > 30 (|err| < e^-30)
+    "Matern": (1e-12, 1e-300), "Integral": (1e-9, 1e-13), "HyperSpherical": (1e-11, 2048 * EPS), "SuperSpherical": (1e-10, 2048 * EPS),
     "JBessel": (1e-10, 1e-13), "TPLGaussian": (1e-11, 1e-13), "TPLExponential": (1e-11, 1e-13), "TPLStable": (1e-9, 1e-13),
 }
 
